@@ -258,7 +258,7 @@ func cmdReplay(args []string) int {
 	if err := json.Unmarshal(b, &rf); err != nil {
 		fatal2("bad replay file: %v", err)
 	}
-	bin := buildBinary(false)
+	bin := buildBinary(rf.Spec.Race) // a data-race report replays under the -race build
 	sp := rf.Spec
 	sp.Trace = len(args) > 1 && args[1] == "-trace"
 	r := runSpec(bin, sp, 1)
@@ -293,6 +293,8 @@ func cmdSelftest(args []string) int {
 	switch args[0] {
 	case "determinism":
 		return selftestDeterminism(args[1:])
+	case "race":
+		return selftestRace()
 	}
 	fatal2("unknown selftest %s", args[0])
 	return 2
